@@ -131,8 +131,11 @@ CLAIMED = {
                  'C11_outside_nodes_run_at_most_once; invariant RX of Proofs/RecScope.lean, one lemma per handler, no hypothesis '
                  'on the program). Proof (general, local to _run_recurrent_subgraph): iteration k runs only if k < max_iterations and hands the data to '
                  'the start node; exhaustion gives default iff opted in else the recurrent error; a Recurrent result never unlocks '
-                 'consumers; re-execution needs a hide (with C04) (C11_*). Partial: consumers-see-final-only under all schedules is '
-                 'tied and monitored (private subgraphs).', '§6 C11'),
+                 'consumers; re-execution needs a hide (with C04); a restart forgets the decisions of the switches it invalidates, '
+                 'their consumers wait for the new decision, and the DAG of an iteration consists of scope nodes the destination '
+                 'needs through ordinary edges (cases and one-of candidates run lazily; repo fix 12d4978) (C11_*). Partial: '
+                 'consumers-see-final-only under all schedules is tied and monitored (private subgraphs; switches and one-ofs '
+                 'inside the subgraph are inside the monitored fragment).', '§6 C11'),
     'C12': ('Lean 4 proof of the retry loop specification + lifting lemmas into the engine model; exhaustive-grid correspondence',
             'Proof (full strength): Retry.run — the attempt loop of __execute_node with NodeRetryPolicy defaults — invokes the body '
             'exactly m = min(first non-retryable-or-success, attempts) times, sleeps `delay` between attempts, and yields value / '
